@@ -543,11 +543,47 @@ pub fn run(ctx: &Ctx) -> i32 {
             }
         }
     }
+    // a translation whose consumer has gone, started with SIGPIPE inherited as ignored or blocked in the signal
+    // mask (what shells, language runtimes and container entry points hand down): xt still ends by SIGPIPE or
+    // with an ordinary failure status - never by another signal
+    sc.file("many.json", &{
+        let mut b = Vec::new();
+        for i in 0..4000 {
+            b.extend_from_slice(format!("{{\"id\": {i}, \"text\": \"row {i}\"}}\n").as_bytes());
+        }
+        b
+    });
+    for env in [procmon::SigEnv::PipeIgnored, procmon::SigEnv::PipeBlocked] {
+        for to in [Fmt::Json, Fmt::Yaml, Fmt::Msgpack] {
+            for via_stdin in [false, true] {
+                for (bin, bname) in [(procmon::release_bin(), "release"), (procmon::debug_bin(), "debug")] {
+                    let mut argv: Vec<String> = vec!["-t".into(), to.name().into()];
+                    if !via_stdin {
+                        argv.push("many.json".into());
+                    }
+                    let data = std::fs::read(sc.path().join("many.json")).unwrap_or_default();
+                    let mk = || Run { bin: &bin, argv: argv.clone(), cwd: sc.path(), stdin: if via_stdin { StdinKind::BytesAfterConsumerLeft(data.clone()) } else { StdinKind::Null }, stdout: StdoutKind::CloseAfter(0), wall_secs: 60, cpu_secs: 30 };
+                    let mut out = procmon::run_sig(mk(), env);
+                    if out.status == Status::Exit(0) {
+                        out = procmon::run_sig_exclusive(mk(), env); // see procmon::run_exclusive
+                    }
+                    acc.evals += 1;
+                    acc.count("binary_consumer_gone_under_a_signal_environment");
+                    match out.status {
+                        Status::Exit(1) => acc.count("binary_signal_environment_exit_1"),
+                        Status::Signal(s) if s == libc::SIGPIPE => acc.count("binary_signal_environment_sigpipe"),
+                        Status::Timeout | Status::SpawnError(_) => acc.inconclusive += 1,
+                        ref other => acc.violation(Violation { sig: format!("{bname} binary, consumer gone, SIGPIPE {env:?}: {}", other.show()), case: json!({"binary": bname, "argv": argv, "sig_env": format!("{env:?}"), "stdin": via_stdin}), observed: format!("{}; stderr [{}]", other.show(), preview(&out.stderr, 200)), expected: "death by SIGPIPE or exit 1 (the only signal xt may die from is SIGPIPE)".into() }),
+                    }
+                }
+            }
+        }
+    }
     if thorough {
         fuzz_stage(ctx, "totality", 600, "C04", &mut acc);
     }
-    let rule = format!("{} cases in crash-isolated worker processes: 3/4 mixed corpus inputs (valid streams, mutants, splices, seeds, random bytes/tokens), 1/4 adversarial shapes (nesting to {} for JSON/MessagePack/TOML and {} for YAML, unclosed openers, declared lengths up to 2^32-1 on every str/bin/ext/array/map marker, alias bombs, lone anchors/aliases/tags, empty input, valid documents with a node the target must refuse, long scalars and wide collections, numeric edge literals, UTF-16/32 YAML with multi-byte characters on every alignment around 8/16/24/32 KiB of re-encoded text, random bytes); every case x 5 source selections x 4 targets x [slice, reader under a random schedule] (+ for translatable inputs two runs with a writer that fails at a random output offset) on the worker's 8 MiB main-thread stack with an 8 GiB address-space limit; plus a sample of adversarial inputs through the debug and release binaries, and 12 command lines that end without translating (help, version, usage errors, unreadable operands) x 5 program names (argv[0] not valid UTF-8, empty, a path) x stdout pipe / unread pipe / full device through both binaries; distinct non-trivial = distinct non-empty inputs", n, if thorough { 100000 } else { 5000 }, if thorough { 30000 } else { 1200 });
-    let mut f = Finish { ctx, level: "exploration", rule, assumptions: vec!["'never loops forever' is decided up to a budget: quick 60 s without progress in a batch, then 300 s alone; thorough 120 s / 900 s".into(), "a dead worker is attributed to the case it had announced".into()], extra: serde_json::Map::new(), exhaustive: false, min_distinct: 1000, must_reach: vec![("cases_completed".into(), (n as u64) * 9 / 10), ("binary_sample_exit_0_or_1".into(), 50), ("binary_non_translating_exit_0_1_2".into(), 200), ("class_huge_declared_length".into(), 10), ("class_alias_bomb".into(), 10), ("class_reencoded_boundary".into(), 10)] };
+    let rule = format!("{} cases in crash-isolated worker processes: 3/4 mixed corpus inputs (valid streams, mutants, splices, seeds, random bytes/tokens), 1/4 adversarial shapes (nesting to {} for JSON/MessagePack/TOML and {} for YAML, unclosed openers, declared lengths up to 2^32-1 on every str/bin/ext/array/map marker, alias bombs, lone anchors/aliases/tags, empty input, valid documents with a node the target must refuse, long scalars and wide collections, numeric edge literals, UTF-16/32 YAML with multi-byte characters on every alignment around 8/16/24/32 KiB of re-encoded text, random bytes); every case x 5 source selections x 4 targets x [slice, reader under a random schedule] (+ for translatable inputs two runs with a writer that fails at a random output offset) on the worker's 8 MiB main-thread stack with an 8 GiB address-space limit; plus a sample of adversarial inputs through the debug and release binaries, and 12 command lines that end without translating (help, version, usage errors, unreadable operands) x 5 program names (argv[0] not valid UTF-8, empty, a path) x stdout pipe / unread pipe / full device through both binaries, and translations whose consumer has gone under SIGPIPE inherited as ignored or blocked; distinct non-trivial = distinct non-empty inputs", n, if thorough { 100000 } else { 5000 }, if thorough { 30000 } else { 1200 });
+    let mut f = Finish { ctx, level: "exploration", rule, assumptions: vec!["'never loops forever' is decided up to a budget: quick 60 s without progress in a batch, then 300 s alone; thorough 120 s / 900 s".into(), "a dead worker is attributed to the case it had announced".into()], extra: serde_json::Map::new(), exhaustive: false, min_distinct: 1000, must_reach: vec![("cases_completed".into(), (n as u64) * 9 / 10), ("binary_sample_exit_0_or_1".into(), 50), ("binary_non_translating_exit_0_1_2".into(), 200), ("binary_consumer_gone_under_a_signal_environment".into(), 24), ("class_huge_declared_length".into(), 10), ("class_alias_bomb".into(), 10), ("class_reencoded_boundary".into(), 10)] };
     if !acc.violations.is_empty() {
         f.must_reach.clear();
     }
